@@ -36,7 +36,7 @@ theorem gen_fwd_leg (s0 s1 M0 M1 dx efl lam fdx sh0 sh1 : K) :
   refine ⟨?_, ?_, ?_, ?_, ?_, ?_⟩ <;>
     simp only [fpmFwdQ0, fpmFwdQ1, fpmFwdShift0, fpmFwdShift1, fpmFwdSamples0, fpmFwdSamples1, qForSampling,
       Model.C03.axisQ, Model.C03.qForSampling, Model.C03.shiftSamples, ofInt_eq, Int.cast_zero] <;>
-    (try split) <;> simp_all
+    (try split) <;> (try simp_all) <;> (try ring)
 
 /-- return leg: per-axis `Q` from the MASK shape and `fpm_dx`, towards the pupil spacing `dx`; output samples = pupil
 shape; the shift it finally hands to the transform is the hand model's `fpmBackShift` -/
@@ -59,7 +59,7 @@ theorem gen_back_leg (s0 s1 M0 M1 dx efl lam fdx sh0 sh1 : K) :
   refine ⟨?_, ?_, ?_, ?_, ?_, ?_⟩ <;>
     simp only [fpmBackQ0, fpmBackQ1, fpmBackShift0, fpmBackShift1, fpmBackSamples0, fpmBackSamples1, qForSampling,
       Model.C03.axisQ, Model.C03.qForSampling, Model.C03.shiftSamples, Model.C03.fpmBackShift, Model.C03.fpmBackShiftArg,
-      ofInt_eq, Int.cast_zero, hs, hs']
+      ofInt_eq, Int.cast_zero, hs, hs'] <;> (try ring)
 
 /-- structural facts read off the AST: the mask enters as a plain element-wise product of the focal field, the
 `Wavefront` wrapper passes its attributes to the matching parameters, `babinet` is `field - return(1 - fpm)` -/
